@@ -1,4 +1,4 @@
-(* C01 -- uniqueness of denotations up to the mnemonic: two database rows that both admit the same bytes must "overlap"
+(* C01 -- uniqueness of denotations up to the mnemonic: two database rows that both accept the same bytes must "overlap"
    syntactically (`may_overlap`, a decidable relation on rows), and the generated database is checked by reflection to have no
    overlapping rows with different mnemonics except a reviewed alias list.  Model part (no proofs): *)
 From Coq Require Import ZArith List Bool.
